@@ -154,6 +154,17 @@ GenLenAt(j) ==
             [len |-> n, feed |-> BytesToHex(Prng(K("gl", <<j>>), 40)),
              fail_at |-> IF m = 0 THEN <<>> ELSE IF m = 1 THEN <<0>> ELSE <<0, 1, 2, 3>>])
 
+\* requested lengths that ALIAS a supported length when the number - or the number times 4 / 32 / 11, the scalings the
+\* arithmetic of a generator uses - is truncated to 8, 16, 32 or 64 bits: L + k 2^j for j in {8, 16, 31, 32, 59, 61, 62, 63}
+AliasPows == <<8, 16, 31, 32, 59, 61, 62, 63>>
+AliasLenText(j) ==        \* j in 1..(5 * 8 * 3)
+  LET L == SizeOf(1 + ((j - 1) % 5))
+      w == AliasPows[1 + (((j - 1) \div 5) % 8)]
+      k == 1 + ((j - 1) \div 40)
+  IN  Utf8ToStr(DecCodes(BnToDec(BnMulAddSmall(BnPow2(w), k, L))))
+NAliasLens == 5 * 8 * 3
+AliasLenAt(j) == MItem("mnemonic.random", "alias_lengths", [len |-> 0, len_text |-> AliasLenText(j), feed |-> BytesToHex(Prng(K("al", <<j>>), 40)), fail_at |-> <<>>])
+
 \* the kinds of failure the source may report (errno of getentropy): EIO, EINTR, EAGAIN, ENOSYS, EFAULT, EPERM, EINVAL,
 \* ENOMEM, and a failure that leaves errno 0; once, four times and sixteen times in a row.  Every one is a failure.
 Errnos == <<5, 4, 11, 38, 14, 1, 22, 12, 0>>
